@@ -77,7 +77,8 @@ def random_history(rng):
     out = []
     for t in hist:
         if rng.random() < 0.08:
-            t += ":" + rng.choice(["n0", "nw", "pw", "p0", "n5"])
+            # (n13: exactly the length of a parse-info header - the smallest offset that is checked against the true distance)
+            t += ":" + rng.choice(["n0", "nw", "pw", "p0", "n5", "n13", "n13", "n12", "n14", "p13"])
         out.append(t)
     if rng.random() < 0.15:
         out += ["/"] + random_history(rng)
@@ -131,7 +132,7 @@ class Prop(object):
 
     def histories(self, ctx, rng):
         maxlen = ctx.n(3, 4)
-        alpha = ["H0", "P0", "P1", "F0", "D0.1.0.0", "D0.1.1.0", "D0.2.0.0", "A2", "E", "H1", "P0:n0", "P1:pw", "E:nw"]
+        alpha = ["H0", "P0", "P1", "F0", "D0.1.0.0", "D0.1.1.0", "D0.2.0.0", "A2", "E", "H1", "P0:n0", "P1:pw", "E:nw", "H0:n13"]
         for n in range(1, maxlen + 1):
             for h in itertools.product(alpha, repeat=n):
                 if n >= 3 and h[0] != "H0":
